@@ -182,6 +182,17 @@ def replay_coll(job):
                 h = g.LineCollection(hs) if dim == 2 else g.PlaneCollection(hs)
                 p = g.PointCollection(np.array([r["r"]["p"] for r in recs]))
                 val = np.asarray(g.dist(h, p))
+            elif kind == "parline-obj":
+                # one plane against the LineCollection of all the lattice lines parallel to it (lines through the origin, parallel
+                # to an axis, in general position mixed), in both argument orders
+                P = lambda v: g.Point(np.array(v))  # noqa: E731
+                plane = g.Plane(np.array(recs[0]["r"]["h"]))
+                lines = g.join(g.PointCollection(np.array([r["r"]["a"] for r in recs])), g.PointCollection(np.array([r["r"]["b"] for r in recs])))
+                val = np.asarray(g.dist(plane, lines))
+                val2 = np.asarray(g.dist(lines, plane))
+                if val2.shape != val.shape or not np.allclose(val, val2, atol=1e-9, equal_nan=True):
+                    out.append(dict(site=f"{kind}/collection", stratum="general", case={"count": len(recs)},
+                                    expected="dist(a, b) = dist(b, a)", observed={"ab": val.tolist()[:8], "ba": val2.tolist()[:8]}))
             elif kind in ("ppoly-obj", "ppolyh-obj", "pseg-obj"):
                 # one polytope, all of its query points in one PointCollection (incident and non-incident positions mixed)
                 r0 = recs[0]["r"]
@@ -268,6 +279,8 @@ def run(ctx: Ctx):
             byobj.setdefault(("ppolyh-obj", str(r_["corner"])), []).append(x)
         elif r_["t"] == "pseg":
             byobj.setdefault(("pseg-obj", str((r_["a"], r_["b"]))), []).append(x)
+        elif r_["t"] == "parline":
+            byobj.setdefault(("parline-obj", str(r_["h"])), []).append(x)
     ncollobj = 0
     for (kind, _), sel in sorted(byobj.items()):
         if len(sel) >= 2:
